@@ -247,9 +247,8 @@ def check(src, rep):
     rep.require(len(back) == 1, f"cannot bind the header's frame field: {back}")
     roles = {"header": hdr_fields[0], "frame": back[0]}
     # ---------------------------------------------------------------- R3: length test and bit fields
-    _bitfields(rep, M, F, H, file, store, roles)
-    # ---------------------------------------------------------------- R4: accessor geometry
-    _geometry(rep, M, F, H, file, store, roles)
+    from sa.hdlclayout import layout
+    layout(rep, M, F, H, file, store, roles, FRAME, HEADER)
     # ---------------------------------------------------------------- R5 / R6
     rules = {"octets": "R5", "buffer": "R5", "frozen": "R6", "result": "R5"}
     emit(rep, m, appended_values(m), rules)
@@ -260,331 +259,6 @@ def check(src, rep):
     include(rep, src, "C16", {"R1"}, "R5", "the octets of a returned frame are the un-stuffed input between its two flags (no per-frame state of an earlier frame is applied to it)")
     rep.floor("accessors analysed", rep.analysed.get("accessors", 0), 9)
     rep.floor("appending rows", sum(1 for sp in m.paths if m.feasible(sp) and sp.post.appends), 4)
-
-
-def _bitfields(rep, M, F, H, file, store, roles):
-    sb = SvBits()
-    E = Engine(M, keep_props={"frame_format", "frame_length"})
-    # is_expected_length
-    fn = F.methods.get("is_expected_length")
-    rep.require(fn is not None, "anchor vanished: HdlcFrame.is_expected_length")
-    ps = Engine(M, keep_props={"frame_length"}).run(fn)
-    want_a = ("prop", ("f0", SELF, roles["header"]), "frame_length")
-    ok = False
-    if len(ps) == 1 and ps[0].ret and ps[0].ret[0] == "cmp" and ps[0].ret[1] == "Eq":
-        a, b = strip_ver(ps[0].ret[2]), strip_ver(ps[0].ret[3])
-        sides = {a, b}
-        lens = {("len", ("f0", SELF, store)), ("len", SELF)}
-        ok = any(s[0] == "prop" and s[2] == "frame_length" for s in sides) and bool(sides & lens)
-    if ok:
-        rep.ok("R3", "is_expected_length", "compares the header's frame_length with the octet count")
-    else:
-        rep.violation("R3", "hdlc.HdlcFrame.is_expected_length", "length-test", "is_expected_length is not `header.frame_length == number of octets`", file, fn.node.lineno,
-                      witness=show_sv(ps[0].ret) if ps and ps[0].ret else None)
-    rep.count("accessors", 1)
-    # frame_format and sub-fields
-    ff = H.methods.get("frame_format")
-    rep.require(ff is not None, "anchor vanished: HdlcFrameHeader.frame_format")
-    pf = ret_paths(Engine(M).run(ff))
-    vals = [p for p in pf if p.ret != ("c", None)]
-    o0 = o1 = None
-    ffbv = None
-    if len(vals) == 1:
-        ffbv = sb.bv(vals[0].ret)
-        keys = list(sb.octets)
-        idx = sorted(k[1] for k in keys)
-        if ffbv is not None and idx == [("c", 0), ("c", 1)]:
-            o0 = sb.octets[[k for k in keys if k[1] == ("c", 0)][0]]
-            o1 = sb.octets[[k for k in keys if k[1] == ("c", 1)][0]]
-    if ffbv is not None and o0 is not None and ffbv == o0.shl(8).or_(o1):
-        # availability guard: needs >= 2 octets
-        g = [(strip_ver(a), pol) for a, pol, _ in vals[0].guards]
-        need2 = any(a[0] == "cmp" and a[2][0] == "len" and ((a[1] == "Lt" and a[3] == ("c", 2) and not pol) or (a[1] == "LtE" and a[3] == ("c", 1) and not pol)) for a, pol in g)
-        if need2:
-            rep.ok("R3", "frame_format", "(octet0 << 8) | octet1 for symbolic octets (affine equality), available from 2 octets on")
-        else:
-            rep.violation("R3", "hdlc.HdlcFrameHeader.frame_format", "availability", "format field is read without requiring 2 octets", file, ff.node.lineno)
-    else:
-        rep.violation("R3", "hdlc.HdlcFrameHeader.frame_format", "format-field", "frame format is not (octet0 << 8) | octet1", file, ff.node.lineno,
-                      witness=show_sv(vals[0].ret) if vals else None)
-        ffbv = None
-    rep.count("accessors", 1)
-    FFK = ("prop", SELF, "frame_format", 0)
-    full = Vars()
-    f16 = full.fresh("format", 16)
-    for name, want, desc in (("frame_length", f16.and_(BV.const(0x7FF)), "low 11 bits"),
-                             ("frame_format_type", f16.shr(12).and_(BV.const(0xF)), "bits 12-15"),
-                             ("segmentation", f16.shr(11).and_(BV.const(1)), "bit 11")):
-        fn = H.methods.get(name)
-        rep.require(fn is not None, f"anchor vanished: HdlcFrameHeader.{name}")
-        ps2 = [p for p in ret_paths(Engine(M, keep_props={"frame_format"}).run(fn)) if p.ret != ("c", None)]
-        rep.count("accessors", 1)
-        got = None
-        if len(ps2) == 1:
-            r = ps2[0].ret
-            if name == "segmentation" and r[0] == "cmp" and r[1] == "Eq" and r[3] == ("c", 1):
-                r = r[2]
-            elif name == "segmentation" and r[0] == "cmp" and r[1] == "Eq" and r[3] == ("c", 0):
-                r = None
-            s2 = SvBits()
-            if r is not None:
-                got = s2.bv(r, sub={FFK: f16, strip_ver(FFK): f16})
-        if got is not None and got == want:
-            rep.ok("R3", name, f"= {desc} of the format field, for a symbolic 16-bit field (affine equality)")
-        else:
-            rep.violation("R3", f"hdlc.HdlcFrameHeader.{name}", "bit-field", f"{name} is not the {desc} of the frame format field", file, fn.node.lineno,
-                          witness=show_sv(ps2[0].ret) if ps2 else None)
-
-
-def _geometry(rep, M, F, H, file, store, roles):
-    AB = ("prop", ("f0", SELF, roles["frame"]), "as_bytes")
-    LENF = ("len", ("f0", SELF, roles["frame"]))
-    # ---- address scan step: the header method with a position parameter and a loop
-    ga = next((f for n, f in H.methods.items() if f.params and f.kind == "method" and any(isinstance(x, ast.While) for x in ast.walk(f.node))), None)
-    rep.require(ga is not None, "address scan helper not found")
-    node, ps = loop_body_paths(Engine(M), ga)
-    pos_param = ga.params[0]
-    ok_scan = False
-    why = ""
-    # locals: index var, data var, accumulator
-    body_assigns = {}
-    for s in ga.node.body if not isinstance(ga.node.body[0], ast.Expr) else ga.node.body:
-        pass
-    rets = [p for p in ps if p.status == "return"]
-    cont = [p for p in ps if p.status == "run"]
-    if len(ps) == 3 and len(rets) == 2 and len(cont) == 1:
-        none_p = [p for p in rets if p.ret == ("c", None)]
-        val_p = [p for p in rets if p.ret != ("c", None)]
-        if len(none_p) == 1 and len(val_p) == 1:
-            vp, cp = val_p[0], cont[0]
-            # terminating test: (data[i] & 1) == 1 true on return, false on continue
-            def term_lit(p):
-                for a, pol, _ in p.guards:
-                    a = strip_ver(a)
-                    if a[0] == "cmp" and a[1] == "Eq" and a[2][0] == "op" and a[2][1] == "BitAnd":
-                        ops = {a[2][2], a[2][3]}
-                        if ("c", 1) in ops and a[3] == ("c", 1):
-                            other = (ops - {("c", 1)}).pop() if len(ops) == 2 else None
-                            return other, pol
-                        return ("bad-mask", a), pol
-                    if a[0] == "op" and a[1] == "BitAnd" and ("c", 1) in (a[2], a[3]):
-                        other = a[3] if a[2] == ("c", 1) else a[2]
-                        return other, pol
-                return None, None
-            tv, tpol = term_lit(vp)
-            cv, cpol = term_lit(cp)
-            if isinstance(tv, tuple) and tv and tv[0] == "bad-mask":
-                why = f"address terminator test is {show_sv(tv[1])}, not `octet & 0x01 == 0x01`"
-            elif tv is None or cv is None or tpol is not True or cpol is not False or tv != cv:
-                why = "cannot recognise the address terminator test"
-            elif tv[0] != "sub":
-                why = "terminator test is not on the scanned octet"
-            else:
-                idx = tv[2]
-                app_v = [e for e in vp.effects if e[0] == "mutate" and e[2] == "append"]
-                app_c = [e for e in cp.effects if e[0] == "mutate" and e[2] == "append"]
-                inc = [st for st in ast.walk(node) if isinstance(st, ast.AugAssign) and isinstance(st.op, ast.Add) and isinstance(st.value, ast.Constant) and st.value.value == 1]
-                bound = any(strip_ver(a)[0] == "cmp" and strip_ver(a)[2] == idx and strip_ver(a)[3] in (LENF, ("len", AB)) for a, pol, _ in none_p[0].guards)
-                if len(app_v) == 1 and len(app_c) == 1 and strip_ver(app_v[0][3][0]) == tv and strip_ver(app_c[0][3][0]) == tv and len(inc) == 1 and bound:
-                    ok_scan = True
-                else:
-                    why = "scan step is not: stop with None at the frame end; append octet; return at LSB 1; else advance by one"
-    else:
-        why = f"address scan loop has {len(ps)} step paths instead of 3 (end-of-frame / terminator / continue)"
-    # start index of the scan = the position parameter, data = frame octets
-    src_txt = ast.unparse(ga.node)
-    start_ok = any(isinstance(s, ast.Assign) and isinstance(s.value, ast.Name) and s.value.id == pos_param for s in ast.walk(ga.node))
-    if ok_scan and start_ok:
-        rep.ok("R4", "address scan", "starts at the given position, collects octets up to and including the first one with low bit 1, None if the frame ends first (3 step paths)")
-    elif why.startswith("address terminator") or why.startswith("scan step"):
-        rep.violation("R4", f"hdlc.HdlcFrameHeader.{ga.name}", "address-scan", why, file, ga.node.lineno)
-    else:
-        rep.undecide(f"R4 address scan: {why or 'start index not the position parameter'}")
-    rep.count("accessors", 1)
-
-    def call_pos(fn):
-        """argument (linear form) with which a header property calls the address scan, on its non-None path"""
-        outs = []
-        for n in ast.walk(fn.node):
-            if isinstance(n, ast.Call) and isinstance(n.func, ast.Attribute) and n.func.attr == ga.name and n.args:
-                outs.append(n.args[0])
-        return outs
-
-    E = Engine(M, keep_props={"destination_address", "source_address"})
-    dst, srcp = H.methods.get("destination_address"), H.methods.get("source_address")
-    rep.require(dst is not None and srcp is not None, "anchor vanished: destination_address / source_address")
-    DST = ("prop", SELF, "destination_address")
-    SRC = ("prop", SELF, "source_address")
-
-    def arg_linear(fn, argnode):
-        fr = E.frame(fn, SELF, [], None)
-        from sa.paths import Path
-        p = Path()
-        # evaluate preceding simple assignments (e.g. destination_adr = self.destination_address)
-        for s in fn.node.body:
-            if isinstance(s, ast.Assign) and len(s.targets) == 1 and isinstance(s.targets[0], ast.Name):
-                try:
-                    E.assign(s.targets[0], E.ev(s.value, p, fr), p, fr, s.lineno)
-                except Exception:
-                    pass
-        return linear(E.ev(argnode, p, fr))
-
-    for fn, want, name in ((dst, {1: 2}, "destination address starts at octet 2"), (srcp, {1: 2, ("len", DST): 1}, "source address follows the destination address")):
-        args = call_pos(fn)
-        rep.count("accessors", 1)
-        if len(args) != 1:
-            rep.undecide(f"R4 {fn.name}: does not call the address scan exactly once")
-            continue
-        got = arg_linear(fn, args[0])
-        if got == want:
-            rep.ok("R4", fn.name, name + " (linear form of the scan start)")
-        else:
-            rep.violation("R4", f"hdlc.HdlcFrameHeader.{fn.name}", "address-position", f"{name} is violated: scan starts at {fmt_lin(got)}", file, fn.node.lineno,
-                          witness=f"expected {fmt_lin(want)}")
-    # control position
-    cpf = None
-    cp_field = None
-    upd = H.methods.get("update")
-    if upd:
-        for n in ast.walk(upd.node):
-            if isinstance(n, ast.Assign) and isinstance(n.targets[0], ast.Attribute) and isinstance(n.value, ast.Call) and isinstance(n.value.func, ast.Attribute) \
-                    and isinstance(n.value.func.value, ast.Name) and n.value.func.value.id == "self" and n.value.func.attr in H.methods and not n.value.args:
-                cpf = H.methods[n.value.func.attr]
-                cp_field = n.targets[0].attr
-    rep.require(cpf is not None and cp_field is not None, "cannot bind the control-position field of the header")
-    vals = [p for p in ret_paths(E.run(cpf)) if p.ret != ("c", None)]
-    rep.count("accessors", 1)
-    want = {1: 2, ("len", DST): 1, ("len", SRC): 1}
-    if len(vals) == 1 and linear(vals[0].ret) == want:
-        rep.ok("R4", "control position", "= 2 + len(destination) + len(source)")
-    else:
-        rep.violation("R4", f"hdlc.HdlcFrameHeader.{cpf.name}", "control-position", "control field position is not 2 + |destination| + |source|", file, cpf.node.lineno,
-                      witness=fmt_lin(linear(vals[0].ret)) if vals else None)
-    CP = ("f0", SELF, cp_field)
-    # the control position is (re)computed on every append until it is known: update() assigns it on every path that enters with
-    # an unknown position and more than 3 octets, and never overwrites a known one with something else
-    pu = Engine(M, keep_props={"destination_address", "source_address"}).run(upd)
-    bad_u = 0
-    n_u = 0
-    for p in pu:
-        entry_none = None
-        long_enough = None
-        for g, pol, _ in p.guards:
-            gs = strip_ver(g)
-            if gs[0] == "cmp" and gs[1] == "Is" and gs[2] == CP and gs[3] == ("c", None):
-                entry_none = pol if entry_none is None else entry_none
-            if gs[0] == "cmp" and gs[2] == LENF and gs[3][0] == "c" and isinstance(gs[3][1], int):
-                k = gs[3][1]
-                if gs[1] == "LtE":
-                    long_enough = (not pol) if k == 3 else ("odd", gs[1], k, pol)
-                elif gs[1] == "Lt":
-                    long_enough = (not pol) if k == 4 else ("odd", gs[1], k, pol)
-                elif gs[1] == "Eq":
-                    long_enough = ("odd", gs[1], k, pol)
-        writes = [e for e in p.effects if e[0] == "write" and e[1] == SELF and e[2] == cp_field]
-        if entry_none is True:
-            n_u += 1
-            if isinstance(long_enough, tuple):
-                bad_u += 1
-                rep.violation("R4", f"hdlc.HdlcFrameHeader.{upd.name}", "control-position-update", "the control-field position is only computed for one particular frame length: frames with extended (multi-octet) "
-                              "addresses never get a control position, so control, HCS and payload stay unavailable", file, upd.node.lineno, witness=f"len(frame) {long_enough[1]} {long_enough[2]} is {long_enough[3]}")
-            elif long_enough is True and not writes:
-                bad_u += 1
-                rep.violation("R4", f"hdlc.HdlcFrameHeader.{upd.name}", "control-position-update", "with more than 3 octets and an unknown control position update() does not compute it", file, upd.node.lineno)
-        elif entry_none is False and writes:
-            bad_u += 1
-            rep.violation("R4", f"hdlc.HdlcFrameHeader.{upd.name}", "control-position-overwrite", "a known control position is overwritten", file, upd.node.lineno)
-    if n_u and not bad_u:
-        rep.ok("R4", "control position update", f"{n_u} path(s): while unknown it is recomputed on every append once more than 3 octets are present; a known position is never overwritten")
-    rep.count("accessors", 1)
-
-    def castless(sv):
-        if isinstance(sv, tuple):
-            if sv and sv[0] == "call" and sv[1] == "cast" and len(sv[2]) == 2:
-                return castless(sv[2][1])
-            return tuple(castless(x) for x in sv)
-        return sv
-
-    # control, HCS, information position
-    for name, checker in (("control", lambda r: r[0] == "sub" and strip_ver(r[1]) == AB and linear(r[2]) == {CP: 1}),
-                          ("information_position", lambda r: linear(r) == {CP: 1, 1: 3})):
-        fn = H.methods.get(name)
-        rep.require(fn is not None, f"anchor vanished: HdlcFrameHeader.{name}")
-        vals = [p for p in ret_paths(Engine(M).run(fn)) if p.ret != ("c", None)]
-        rep.count("accessors", 1)
-        if len(vals) == 1 and checker(castless(vals[0].ret)):
-            rep.ok("R4", name, "index expression equals the layout (control at the control position; information starts 3 octets later)")
-        else:
-            rep.violation("R4", f"hdlc.HdlcFrameHeader.{name}", "position", f"{name} does not follow the frame layout", file, fn.node.lineno, witness=show_sv(vals[0].ret) if vals else None)
-    fn = H.methods.get("header_check_sequence")
-    rep.require(fn is not None, "anchor vanished: header_check_sequence")
-    vals = [p for p in ret_paths(Engine(M).run(fn)) if p.ret != ("c", None)]
-    rep.count("accessors", 1)
-    okh = False
-    if len(vals) == 1:
-        sb = SvBits()
-        bv = sb.bv(castless(vals[0].ret))
-        keys = {k: v for k, v in sb.octets.items()}
-        lin = {tuple(sorted(((str(a), b) for a, b in (linear(k[1]) or {}).items()))): v for k, v in keys.items()}
-        hi = next((v for k, v in keys.items() if linear(k[1]) == {CP: 1, 1: 1}), None)
-        lo = next((v for k, v in keys.items() if linear(k[1]) == {CP: 1, 1: 2}), None)
-        if bv is not None and hi is not None and lo is not None and bv == hi.shl(8).or_(lo):
-            g = [(castless(strip_ver(a)), pol) for a, pol, _ in vals[0].guards]
-            avail = any(a[0] == "cmp" and a[2] == LENF and ((a[1] == "LtE" and linear(a[3]) == {CP: 1, 1: 2} and not pol) or (a[1] == "Lt" and linear(a[3]) == {CP: 1, 1: 3} and not pol)) for a, pol in g)
-            okh = avail
-    if okh:
-        rep.ok("R4", "header_check_sequence", "the two octets after the control field, high octet first; available once both are present")
-    else:
-        rep.violation("R4", "hdlc.HdlcFrameHeader.header_check_sequence", "hcs", "HCS is not (octet[control+1] << 8) | octet[control+2], available from control+3 octets on", file, fn.node.lineno,
-                      witness=show_sv(vals[0].ret) if vals else None)
-    # payload, FCS, as_bytes
-    IP = ("prop", ("f0", SELF, roles["header"]), "information_position")
-    ST = ("f0", SELF, store)
-    fn = F.methods.get("payload")
-    rep.require(fn is not None, "anchor vanished: HdlcFrame.payload")
-    pp = ret_paths(Engine(M, keep_props={"information_position"}).run(fn))
-    vals = [p for p in pp if p.ret != ("c", None)]
-    rep.count("accessors", 1)
-    okp = False
-    wit = None
-    if len(vals) == 1:
-        r = strip_ver(vals[0].ret)
-        wit = show_sv(vals[0].ret)
-        if r[0] == "call" and r[1] == "bytes" and len(r[2]) == 1:
-            r = r[2][0]
-        if r[0] == "slice" and r[1] == ST and r[2] == IP and r[3] == ("c", -2):
-            g = [(strip_ver(a), pol) for a, pol, _ in vals[0].guards]
-            okp = any(a[0] == "cmp" and a[1] == "LtE" and a[2] == ("len", ST) and a[3] == IP and not pol for a, pol in g) or \
-                any(a[0] == "cmp" and a[1] == "Lt" and a[2] == IP and a[3] == ("len", ST) and pol for a, pol in g)
-    if okp:
-        rep.ok("R4", "payload", "octets[information position : -2], only when the frame is longer than the information position")
-    else:
-        rep.violation("R4", "hdlc.HdlcFrame.payload", "payload-slice", "payload is not the octets between the header check sequence and the FCS", file, fn.node.lineno, witness=wit)
-    fn = F.methods.get("frame_check_sequence")
-    if fn is not None:
-        vals = [p for p in ret_paths(Engine(M, keep_props={"information_position"}).run(fn)) if p.ret != ("c", None)]
-        rep.count("accessors", 1)
-        okf = False
-        if len(vals) == 1:
-            sb = SvBits()
-            bv = sb.bv(vals[0].ret)
-            hi = next((v for k, v in sb.octets.items() if k[0] == ST and linear(k[1]) in ({("len", ST): 1, 1: -2}, {1: -2})), None)
-            lo = next((v for k, v in sb.octets.items() if k[0] == ST and linear(k[1]) in ({("len", ST): 1, 1: -1}, {1: -1})), None)
-            okf = bv is not None and hi is not None and lo is not None and bv == hi.shl(8).or_(lo)
-        if okf:
-            rep.ok("R4", "frame_check_sequence", "the last two octets, high octet first in the integer")
-        else:
-            rep.violation("R4", "hdlc.HdlcFrame.frame_check_sequence", "fcs-octets", "frame_check_sequence is not built from the last two octets", file, fn.node.lineno,
-                          witness=show_sv(vals[0].ret) if vals else None)
-    fn = F.methods.get("as_bytes")
-    rep.require(fn is not None, "anchor vanished: HdlcFrame.as_bytes")
-    vals = ret_paths(Engine(M).run(fn))
-    rep.count("accessors", 1)
-    if len(vals) == 1 and strip_ver(vals[0].ret) in (("call", "bytes", (ST,), vals[0].ret[3] if len(vals[0].ret) > 3 else 0), ) or \
-            (len(vals) == 1 and vals[0].ret[0] == "call" and vals[0].ret[1] == "bytes" and vals[0].ret[2] == (ST,)):
-        rep.ok("R4", "as_bytes", "a bytes copy of all frame octets")
-    else:
-        rep.violation("R4", "hdlc.HdlcFrame.as_bytes", "copy", "as_bytes is not a copy of all frame octets", file, fn.node.lineno, witness=show_sv(vals[0].ret) if vals else None)
 
 
 def fmt_lin(d):
